@@ -793,8 +793,8 @@ def _judge_order(ctx, spec, case, order, res, colliders, tags) -> bool:
 def campaigns(ctx):
     thorough = ctx.tier == 'thorough'
     return [
-        Campaign('config', config_spec(), check_config, 4000, 40000),
-        Campaign('section', section_spec(), check_section, 800, 6000),
+        Campaign('config', config_spec(), check_config, 4000, 4000),
+        Campaign('section', section_spec(), check_section, 800, 800),
         Campaign('provider', provider_spec(6 if thorough else 4), check_provider, 50, 40),
     ]
 
